@@ -92,6 +92,9 @@ StepF(s, act) ==
       dx   == [it |-> it, arch |-> s.cfg.arch, hyp |-> Mode(s) = HYP]
   IN IF ~(ISet(s.cpsr) \in {0, 1}) THEN Result(s, "any", FALSE, "envelope:jazelle-thumbee", x0, FALSE, s)
      ELSE IF BadMode(s.cfg, Mode(s)) THEN Result(s, "any", FALSE, "envelope:bad-mode", x0, FALSE, s)
+     \* the IT bits must be zero in ARM state; a state that violates this (reachable only through an exception return whose
+     \* SPSR has T = 0 and IT /= 0, which is UNPREDICTABLE) is judged by the envelope only
+     ELSE IF iset = 0 /\ it # 0 THEN Result(s, "any", FALSE, "envelope:arm-state-with-it", x0, FALSE, s)
      ELSE IF ~Ok(f.x) THEN
           \* fault on the instruction fetch itself: the architecture takes a Prefetch Abort, the
           \* implementation a Data Abort (named deviation FetchFaultIsDataAbort): envelope only
